@@ -26,6 +26,10 @@ struct Cpp {
   }
   void movedfrom() { primesieve::iterator tmp(std::move(*it)); (void) tmp; }
   size_t i() { return it->i_; } size_t size() { return it->size_; }
+  std::string block(bool fwd) {
+    try { if (fwd) it->generate_next_primes(); else it->generate_prev_primes(); } catch (const std::exception&) { return "err"; }
+    std::string r = "b"; for (size_t k = 0; k < it->size_; k++) r += " " + std::to_string(it->primes_[k]); return r;
+  }
 };
 
 struct C {
@@ -41,6 +45,11 @@ struct C {
   void roundtrip(int) { }
   void movedfrom() { primesieve_free_iterator(&it); primesieve_init(&it); }
   size_t i() { return it.i; } size_t size() { return it.size; }
+  std::string block(bool fwd) {
+    if (fwd) primesieve_generate_next_primes(&it); else primesieve_generate_prev_primes(&it);
+    if (it.is_error) { dead = true; return "err"; }
+    std::string r = "b"; for (size_t k = 0; k < it.size; k++) r += " " + std::to_string(it.primes[k]); return r;
+  }
 };
 
 template <class B> void run_history()
@@ -66,6 +75,9 @@ template <class B> void run_history()
     else if (t[0] == "C") { b.clear(); std::cout << "C | -" << std::endl; }
     else if (t[0] == "M") { b.roundtrip(t.size() > 1 ? atoi(t[1].c_str()) : 0); std::cout << "M | -" << std::endl; }
     else if (t[0] == "F") { b.movedfrom(); std::cout << "F | -" << std::endl; }
+    else if (t[0] == "GN") std::cout << "GN | " << b.block(true) << std::endl;
+    else if (t[0] == "GP") std::cout << "GP | " << b.block(false) << std::endl;
+    else if (t[0] == "SS") { primesieve_set_sieve_size(atoi(t[1].c_str())); std::cout << line << " | -" << std::endl; }
     else if (t[0] == "NEW") { b.fresh(u64(t[1]), u64(t[2])); std::cout << line << " | -" << std::endl; }
   }
   std::cout << "END" << std::endl;
